@@ -146,7 +146,35 @@ def check_correlation(ctx, spec, temps, batch, key, acc=None, library=None, do_p
                       dict(inp0, T=T), spec))
     if has_cp and rd is not None:
         property_oracle(ctx, spec, obj, rd, results, inp0, do_perm)
+        array_oracle(ctx, obj, results, inp0)
     return obj
+
+
+def array_oracle(ctx, obj, results, inp0):
+    """the value at a temperature does not depend on how the temperature is passed: a NumPy array (float or integer
+    dtype) or a list of temperatures gives, element by element, what the scalar calls give"""
+    import numpy as np
+    Ts = [T for T, o in results.items() if 'ok' in o.get('cp', {})]
+    if not Ts:
+        return
+    forms = [('float-array', np.array(Ts, dtype=float))]
+    ints = [T for T in Ts if float(T).is_integer()]
+    if ints:
+        forms.append(('int-array', np.array([int(T) for T in ints])))
+        forms.append(('int-list', [int(T) for T in ints]))
+    for name, arr in forms:
+        ref = [results[float(T)]['cp']['ok'] for T in (Ts if name == 'float-array' else ints)]
+        ctx.count('array_' + name)
+        try:
+            got = obj.get_CpoR(arr)
+            got = [float(x) for x in np.asarray(got).ravel()]
+        except Exception as e:
+            ctx.count('array_' + name + '_raises_' + type(e).__name__)
+            continue    # an array argument being refused is not a wrong value
+        if len(got) != len(ref) or any(abs(g - r) > 1e-9 * (1 + abs(r)) for g, r in zip(got, ref)):
+            ctx.violation('Cp/R at tabulated/extended temperatures depends on how the temperatures are passed (array vs scalar)',
+                          dict(inp0, temperatures=[float(x) for x in np.asarray(arr).ravel()], form=name),
+                          expected=ref, observed=got)
 
 
 def property_oracle(ctx, spec, obj, rd, results, inp0, do_perm):
